@@ -8,6 +8,7 @@
 import WS.Lemmas.AppReconn
 namespace WS.Lemmas.App
 open WS WS.Model.App
+open WS.Spec.AppTrace (cbOnly expectedDeliveries reportTrace)
 
 /-- the ways an established connection is lost (everything terminating but the server's close frame) -/
 def isLoss : SrvEv → Bool
@@ -149,7 +150,8 @@ def relTrace (t : Nat) : Option Nat → Trace
 theorem preStep_spec (r : Nat) (s : St) (h : Waiting s) :
     Retrying (preStep r s) ∧ (preStep r s).now = s.now + r ∧ (preStep r s).nextIdx = s.nextIdx ∧
     (preStep r s).dials = s.dials ∧ (preStep r s).hasErrored = true ∧
-    netOnly (preStep r s).trace = netOnly s.trace ++ [(s.now, .sleep r)] ++ relTrace (s.now + r) (openIdx s) := by
+    netOnly (preStep r s).trace = netOnly s.trace ++ [(s.now, .sleep r)] ++ relTrace (s.now + r) (openIdx s) ∧
+    cbOnly (preStep r s).trace = cbOnly s.trace ∧ (preStep r s).calls = s.calls := by
   obtain ⟨w, hs⟩ := h.sk
   by_cases ho : w.isOpen = true
   · have e : preStep r s =
@@ -157,16 +159,18 @@ theorem preStep_spec (r : Nat) (s : St) (h : Waiting s) :
                  trace := s.trace ++ [(s.now, .sleep r)] ++ [(s.now + r, .sockClosed w.idx)] } := by
       simp [preStep, release, sleepStep, closeTransport, hs, ho, St.emit]
     rw [e]
-    refine ⟨⟨h.kr, h.pg, h.hdt, h.lp, ⟨_, rfl, rfl⟩⟩, rfl, rfl, rfl, h.he, ?_⟩
-    simp [netOnly_append, openIdx, hs, ho, relTrace, netOnly]
+    refine ⟨⟨h.kr, h.pg, h.hdt, h.lp, ⟨_, rfl, rfl⟩⟩, rfl, rfl, rfl, h.he, ?_, ?_, rfl⟩
+    · simp [netOnly_append, openIdx, hs, ho, relTrace, netOnly]
+    · simp [cbOnly]
   · have ho' : w.isOpen = false := by simpa using ho
     have e : preStep r s =
         { s with now := s.now + r, sock := some { w with connected := false },
                  trace := s.trace ++ [(s.now, .sleep r)] } := by
       simp [preStep, release, sleepStep, closeTransport, hs, ho']
     rw [e]
-    refine ⟨⟨h.kr, h.pg, h.hdt, h.lp, ⟨_, rfl, ho'⟩⟩, rfl, rfl, rfl, h.he, ?_⟩
-    simp [netOnly_append, openIdx, hs, ho', relTrace, netOnly]
+    refine ⟨⟨h.kr, h.pg, h.hdt, h.lp, ⟨_, rfl, ho'⟩⟩, rfl, rfl, rfl, h.he, ?_, ?_, rfl⟩
+    · simp [netOnly_append, openIdx, hs, ho', relTrace, netOnly]
+    · simp [cbOnly]
 
 /-- one iteration of the reconnect loop up to the call of setSock(True), previous transport open or not -/
 theorem rl_stepW (c : Cfg) (n : Nat) (s : St) (h : Waiting s) (hz : s.now + c.reconnect ≤ c.horizon) :
@@ -229,6 +233,45 @@ theorem runLegal_dials (c : Cfg) : ∀ (l : List TEv) (s : St), (runLegal c s l)
     intro s; simp only [runLegal, List.foldl_cons] at ih ⊢; rw [ih]
     unfold applyLegal; cases e.ev <;> rfl
 
+/-- the callbacks of an attempt that does not end the run, dialled at `t` with invocation counters `calls`, and the counters
+    afterwards.  First attempt of a run (`rc = false`): the failure / loss is reported to on_error; a re-attempt reports
+    nothing (`if not reconnecting`).  An established connection: the opening callback (on_reconnect for a re-established
+    connection when set, else on_open), then the Spec's report of the expected deliveries at their arrival times. -/
+def attCb (c : Cfg) (rc : Bool) (calls : Cb → Nat) (t : Nat) : Att → Trace × (Cb → Nat)
+  | .fail d => if rc then ([], calls) else (cbTrace c calls t .onError [.exn (dialExn d)], cbCalls c calls .onError)
+  | .lost legal te =>
+    let c1 := cbCalls c calls (openCb c rc)
+    let del := expectedDeliveries c.has t legal
+    let c2 := specCalls c.has c.plan c1 del
+    (cbTrace c calls t (openCb c rc) [] ++ reportTrace c.has c.plan c1 del ++
+       (if rc then [] else cbTrace c c2 (endTime t (legal ++ [te])) .onError [.exn (lossExn te.ev)]),
+     if rc then c2 else cbCalls c c2 .onError)
+
+theorem lostState_cb (c : Cfg) (s : St) (rc : Bool) (legal : List TEv) (te : TEv) (ds : List Dial) (idx : Nat)
+    (hleg : ∀ e ∈ legal, isLegal e.ev = true) :
+    cbOnly (lostState c (enterR c s rc (legal ++ [te]) ds) legal te rc idx).trace =
+      cbOnly s.trace ++ (attCb c rc s.calls s.now (.lost legal te)).1 ∧
+    (lostState c (enterR c s rc (legal ++ [te]) ds) legal te rc idx).calls =
+      (attCb c rc s.calls s.now (.lost legal te)).2 := by
+  obtain ⟨h1, h2, _, _⟩ := runLegal_spec c legal (enterR c s rc (legal ++ [te]) ds) hleg rfl
+  have e0 : cbOnly (enterR c s rc (legal ++ [te]) ds).trace =
+      cbOnly s.trace ++ cbTrace c s.calls s.now (openCb c rc) [] := by
+    simp only [enterR, cbOnly_append, cbOnly_cbTrace]; simp [cbOnly]
+  have e1 : (enterR c s rc (legal ++ [te]) ds).calls = cbCalls c s.calls (openCb c rc) := rfl
+  have e2 : (enterR c s rc (legal ++ [te]) ds).arr = s.now := rfl
+  have e3 : ∀ t, cbOnly (if te.ev = SrvEv.eof then [(t, Ev.sockClosed idx)] else []) = [] := by
+    intro t; split <;> simp [cbOnly]
+  cases rc with
+  | true =>
+    refine ⟨?_, ?_⟩
+    · simp only [lostState, attCb, cbOnly_append, h1, e0, e1, e2, e3, ↓reduceIte, List.append_nil, List.append_assoc]
+    · simp only [lostState, attCb, h2, e1, e2, ↓reduceIte]
+  | false =>
+    refine ⟨?_, ?_⟩
+    · simp only [lostState, attCb, cbOnly_append, cbOnly_cbTrace, h1, h2, e0, e1, e2, e3, Bool.false_eq_true, ↓reduceIte,
+        List.append_assoc, List.nil_append]
+    · simp only [lostState, attCb, h2, e1, e2, Bool.false_eq_true, ↓reduceIte]
+
 /-- what the attempt (setSock after the sleep) does, from a state whose previous transport has been released -/
 theorem retry_attempt (c : Cfg) (hq : Quiet c) (hT : 0 < selectTimeout c) (hiv : c.iv = 0) (hr : c.reconnect ≠ 0)
     (s : St) (a : Att) (ds : List Dial) (h : Retrying s) (he : s.hasErrored = true)
@@ -236,19 +279,22 @@ theorem retry_attempt (c : Cfg) (hq : Quiet c) (hT : 0 < selectTimeout c) (hiv :
     (hfuel : a.fuel (selectTimeout c) ≤ c.fuel) (hz : attEnd s.now a ≤ c.horizon) :
     ∃ s', setSock c s true = (s', .ok ()) ∧ Waiting s' ∧ s'.dials = ds ∧ s'.nextIdx = s.nextIdx + 1 ∧
       s'.now = attEnd s.now a ∧ openIdx s' = attOpen s.nextIdx a ∧
-      netOnly s'.trace = netOnly s.trace ++ [(s.now, .dial s.nextIdx)] ++ attClose s.now s.nextIdx a := by
+      netOnly s'.trace = netOnly s.trace ++ [(s.now, .dial s.nextIdx)] ++ attClose s.now s.nextIdx a ∧
+      cbOnly s'.trace = cbOnly s.trace ++ (attCb c true s.calls s.now a).1 ∧ s'.calls = (attCb c true s.calls s.now a).2 := by
   obtain ⟨w, hs, hw⟩ := h.sk
   cases a with
   | fail d =>
-    refine ⟨_, later_fail c hr s w d ds hs hw h.pg hd ha h.kr, ⟨h.kr, h.pg, h.hdt, rfl, rfl, ⟨_, rfl⟩⟩, rfl, rfl, rfl, ?_, ?_⟩
+    refine ⟨_, later_fail c hr s w d ds hs hw h.pg hd ha h.kr, ⟨h.kr, h.pg, h.hdt, rfl, rfl, ⟨_, rfl⟩⟩, rfl, rfl, rfl, ?_, ?_, ?_, rfl⟩
     · simp [openIdx, attOpen]
     · simp [netOnly_append, attClose, netOnly]
+    · simp [attCb, cbOnly_append, cbOnly]
   | lost legal te =>
     obtain ⟨hleg, hl⟩ := ha
     have hu3 : Up (enterR c s true (legal ++ [te]) ds) := ⟨h.kr, ⟨_, rfl, rfl, rfl, rfl⟩, h.pg, h.lp⟩
     have hu2 := runLegal_up c legal _ hu3
+    obtain ⟨cb1, cb2⟩ := lostState_cb c s true legal te ds s.nextIdx hleg
     refine ⟨_, attempt_lost c hq hT hiv hr s true legal te ds hd (Or.inr ⟨w, hs, hw⟩) h.kr h.pg h.lp hleg hl hfuel hz,
-      ⟨by simpa [lostState] using hu2.kr, by simpa [lostState] using hu2.pg, ?_, rfl, rfl, ⟨_, rfl⟩⟩, ?_, ?_, rfl, ?_, ?_⟩
+      ⟨by simpa [lostState] using hu2.kr, by simpa [lostState] using hu2.pg, ?_, rfl, rfl, ⟨_, rfl⟩⟩, ?_, ?_, rfl, ?_, ?_, cb1, cb2⟩
     · simp only [lostState]; rw [runLegal_hdt]; exact h.hdt
     · simp only [lostState]; rw [runLegal_dials]; rfl
     · simp only [lostState]; rw [runLegal_nextIdx]; rfl
@@ -267,12 +313,14 @@ theorem rl_round (c : Cfg) (hq : Quiet c) (hT : 0 < selectTimeout c) (hiv : c.iv
     ∃ s', reconnectLoop c (n + 1) s = reconnectLoop c n s' ∧ Waiting s' ∧ s'.dials = ds ∧ s'.nextIdx = s.nextIdx + 1 ∧
       s'.now = attEnd (s.now + c.reconnect) a ∧ openIdx s' = attOpen s.nextIdx a ∧
       netOnly s'.trace = netOnly s.trace ++ [(s.now, .sleep c.reconnect)] ++ relTrace (s.now + c.reconnect) (openIdx s) ++
-        [(s.now + c.reconnect, .dial s.nextIdx)] ++ attClose (s.now + c.reconnect) s.nextIdx a := by
-  obtain ⟨p1, p2, p3, p4, p5, p6⟩ := preStep_spec c.reconnect s h
+        [(s.now + c.reconnect, .dial s.nextIdx)] ++ attClose (s.now + c.reconnect) s.nextIdx a ∧
+      cbOnly s'.trace = cbOnly s.trace ++ (attCb c true s.calls (s.now + c.reconnect) a).1 ∧
+      s'.calls = (attCb c true s.calls (s.now + c.reconnect) a).2 := by
+  obtain ⟨p1, p2, p3, p4, p5, p6, p7, p8⟩ := preStep_spec c.reconnect s h
   have hz1 : s.now + c.reconnect ≤ c.horizon := Nat.le_trans (attEnd_ge _ a) hz
-  obtain ⟨s', e1, e2, e3, e4, e5, e6, e7⟩ := retry_attempt c hq hT hiv hr (preStep c.reconnect s) a ds p1 p5
+  obtain ⟨s', e1, e2, e3, e4, e5, e6, e7, e8, e9⟩ := retry_attempt c hq hT hiv hr (preStep c.reconnect s) a ds p1 p5
     (by rw [p4]; exact hd) ha hfuel (by rw [p2]; exact hz)
-  refine ⟨s', ?_, e2, e3, by rw [e4, p3], by rw [e5, p2], by rw [e6, p3], ?_⟩
+  refine ⟨s', ?_, e2, e3, by rw [e4, p3], by rw [e5, p2], by rw [e6, p3], ?_, by rw [e8, p7, p8, p2], by rw [e9, p8, p2]⟩
   · rw [rl_stepW c n s h hz1, e1]; rfl
   · rw [e7, p6, p2, p3]
 
@@ -307,6 +355,14 @@ theorem attsEnd_ge (r : Nat) : ∀ (as : List Att) (t : Nat), t ≤ attsEnd r t 
     have := attEnd_ge (t + r) a
     omega
 
+/-- the callbacks of the last connection of the run (re-established at `t`, legal traffic, closed by the server): opening
+    callback, the Spec's report of the deliveries, on_close with the close frame's code and reason -/
+def finalCb (c : Cfg) (calls : Cb → Nat) (t : Nat) (legal : List TEv) (te : TEv) (body : Bytes) : Trace :=
+  let c1 := cbCalls c calls (openCb c true)
+  let del := expectedDeliveries c.has t legal
+  cbTrace c calls t (openCb c true) [] ++ reportTrace c.has c.plan c1 del ++
+    cbTrace c (specCalls c.has c.plan c1 del) (endTime t (legal ++ [te])) .onClose (closeArgs c (some body))
+
 /-- the last round: the attempt whose connection the server closes (previous transport open or not) -/
 theorem rl_final (c : Cfg) (hq : Quiet c) (hT : 0 < selectTimeout c) (hiv : c.iv = 0) (n : Nat) (s : St)
     (legal : List TEv) (te : TEv) (body : Bytes) (h : Waiting s)
@@ -319,14 +375,15 @@ theorem rl_final (c : Cfg) (hq : Quiet c) (hT : 0 < selectTimeout c) (hiv : c.iv
       sF.now = endTime (s.now + c.reconnect) (legal ++ [te]) ∧
       netOnly sF.trace = netOnly s.trace ++ [(s.now, .sleep c.reconnect)] ++ relTrace (s.now + c.reconnect) (openIdx s) ++
         [(s.now + c.reconnect, .dial s.nextIdx),
-         (endTime (s.now + c.reconnect) (legal ++ [te]), .sockDropped s.nextIdx)] := by
-  obtain ⟨p1, p2, p3, p4, p5, p6⟩ := preStep_spec c.reconnect s h
+         (endTime (s.now + c.reconnect) (legal ++ [te]), .sockDropped s.nextIdx)] ∧
+      cbOnly sF.trace = cbOnly s.trace ++ finalCb c s.calls (s.now + c.reconnect) legal te body := by
+  obtain ⟨p1, p2, p3, p4, p5, p6, p7, p8⟩ := preStep_spec c.reconnect s h
   have hz1 : s.now + c.reconnect ≤ c.horizon := Nat.le_trans (endTime_ge _ _) hz
   obtain ⟨w, hs, hw⟩ := p1.sk
   have hac := attempt_close c hq hT hiv (preStep c.reconnect s) true legal te body [] (by rw [p4]; exact hd)
     (Or.inr ⟨w, hs, hw⟩) p1.kr p1.pg p1.hdt p1.lp hleg hk hfuel (by rw [p2]; exact hz)
   refine ⟨closeState c (enterR c (preStep c.reconnect s) true (legal ++ [te]) []) legal te body (preStep c.reconnect s).nextIdx,
-    ?_, rfl, ?_, rfl, ?_, rfl, ?_, ?_⟩
+    ?_, rfl, ?_, rfl, ?_, rfl, ?_, ?_, ?_⟩
   · rw [rl_stepW c (n + 1) s h hz1, hac]
     simp only [rlNext]
     rw [rl_stopped c n _ rfl]
@@ -338,6 +395,23 @@ theorem rl_final (c : Cfg) (hq : Quiet c) (hT : 0 < selectTimeout c) (hiv : c.iv
   · simp only [closeState, enterR]; rw [p2]
   · simp only [closeState, netOnly_append, runLegal_net, netOnly_cbTrace, enterR, List.append_nil, p6, p2, p3]
     simp [netOnly, List.append_assoc]
+  · obtain ⟨h1, h2, _, _⟩ := runLegal_spec c legal (enterR c (preStep c.reconnect s) true (legal ++ [te]) []) hleg rfl
+    have e0 : cbOnly (enterR c (preStep c.reconnect s) true (legal ++ [te]) []).trace =
+        cbOnly s.trace ++ cbTrace c s.calls (s.now + c.reconnect) (openCb c true) [] := by
+      simp only [enterR, cbOnly_append, cbOnly_cbTrace, p7, p8, p2]; simp [cbOnly]
+    have e1 : (enterR c (preStep c.reconnect s) true (legal ++ [te]) []).calls = cbCalls c s.calls (openCb c true) := by
+      simp only [enterR, p8]
+    have e2 : (enterR c (preStep c.reconnect s) true (legal ++ [te]) []).arr = s.now + c.reconnect := by
+      simp only [enterR, p2]
+    simp only [closeState, finalCb, cbOnly_append, cbOnly_cbTrace, h1, h2, e0, e1, e2, List.append_assoc]
+    simp [cbOnly]
+
+/-- the callbacks of the retries `as` (the first of them preceded by a sleep that starts at `t`), and the counters afterwards -/
+def attsCb (c : Cfg) (r : Nat) : (Cb → Nat) → Nat → List Att → Trace × (Cb → Nat)
+  | calls, _, [] => ([], calls)
+  | calls, t, a :: as =>
+    ((attCb c true calls (t + r) a).1 ++ (attsCb c r (attCb c true calls (t + r) a).2 (attEnd (t + r) a) as).1,
+     (attsCb c r (attCb c true calls (t + r) a).2 (attEnd (t + r) a) as).2)
 
 /-- **retry until a connection is closed by the server**, over any mix of failed attempts and lost connections -/
 theorem rl_mixed (c : Cfg) (hq : Quiet c) (hT : 0 < selectTimeout c) (hiv : c.iv = 0) (hr : c.reconnect ≠ 0)
@@ -355,15 +429,18 @@ theorem rl_mixed (c : Cfg) (hq : Quiet c) (hT : 0 < selectTimeout c) (hiv : c.iv
           [(attsEnd c.reconnect s.now as, .sleep c.reconnect)] ++
           relTrace (attsEnd c.reconnect s.now as + c.reconnect) (attsOpen s.nextIdx (openIdx s) as) ++
           [(attsEnd c.reconnect s.now as + c.reconnect, .dial (s.nextIdx + as.length)),
-           (endTime (attsEnd c.reconnect s.now as + c.reconnect) (legal ++ [te]), .sockDropped (s.nextIdx + as.length))] := by
+           (endTime (attsEnd c.reconnect s.now as + c.reconnect) (legal ++ [te]), .sockDropped (s.nextIdx + as.length))] ∧
+        cbOnly sF.trace = cbOnly s.trace ++ (attsCb c c.reconnect s.calls s.now as).1 ++
+          finalCb c (attsCb c c.reconnect s.calls s.now as).2 (attsEnd c.reconnect s.now as + c.reconnect) legal te body := by
   intro as
   induction as with
   | nil =>
     intro s n h hd _ _ hn hz
     obtain ⟨m, rfl⟩ : ∃ m, n = m + 2 := ⟨n - 2, by simp at hn; omega⟩
-    obtain ⟨sF, f1, f2, f3, f4, f5, f6, f7, f8⟩ := rl_final c hq hT hiv m s legal te body h (by simpa using hd) hleg hk hfuel
+    obtain ⟨sF, f1, f2, f3, f4, f5, f6, f7, f8, f9⟩ := rl_final c hq hT hiv m s legal te body h (by simpa using hd) hleg hk hfuel
       (by simpa [attsEnd] using hz)
-    exact ⟨sF, f1, f2, f3, f4, f5, f6, by simpa [attsEnd] using f7, by simpa [attsEnd, attsTrace, attsOpen] using f8⟩
+    exact ⟨sF, f1, f2, f3, f4, f5, f6, by simpa [attsEnd] using f7, by simpa [attsEnd, attsTrace, attsOpen] using f8,
+      by simpa [attsEnd, attsCb] using f9⟩
   | cons a l ih =>
     intro s n h hd hok hfl hn hz
     obtain ⟨m, rfl⟩ : ∃ m, n = m + 1 := ⟨n - 1, by simp at hn; omega⟩
@@ -372,16 +449,18 @@ theorem rl_mixed (c : Cfg) (hq : Quiet c) (hT : 0 < selectTimeout c) (hiv : c.iv
       have := attsEnd_ge c.reconnect l (attEnd (s.now + c.reconnect) a)
       have := endTime_ge (attsEnd c.reconnect (attEnd (s.now + c.reconnect) a) l + c.reconnect) (legal ++ [te])
       omega
-    obtain ⟨s', e1, e2, e3, e4, e5, e6, e7⟩ := rl_round c hq hT hiv hr m s a (l.map Att.toDial ++ [.established (legal ++ [te])])
+    obtain ⟨s', e1, e2, e3, e4, e5, e6, e7, e8, e9⟩ := rl_round c hq hT hiv hr m s a (l.map Att.toDial ++ [.established (legal ++ [te])])
       h (by simpa using hd) (hok a (by simp)) (hfl a (by simp)) hz1
-    obtain ⟨sF, f1, f2, f3, f4, f5, f6, f7, f8⟩ := ih s' m e2 e3 (fun x hx => hok x (by simp [hx]))
+    obtain ⟨sF, f1, f2, f3, f4, f5, f6, f7, f8, f9⟩ := ih s' m e2 e3 (fun x hx => hok x (by simp [hx]))
       (fun x hx => hfl x (by simp [hx])) (by simp at hn ⊢; omega) (by rw [e5]; exact hz)
-    refine ⟨sF, by rw [e1, f1], f2, f3, f4, f5, f6, ?_, ?_⟩
+    refine ⟨sF, by rw [e1, f1], f2, f3, f4, f5, f6, ?_, ?_, ?_⟩
     · rw [f7, e5]; simp only [attsEnd]
     · rw [f8, e7, e4, e5, e6]
       simp only [attsTrace, attsEnd, attsOpen, List.length_cons, List.append_assoc]
       have : s.nextIdx + 1 + l.length = s.nextIdx + (l.length + 1) := by omega
       rw [this]
+    · rw [f9, e8, e9, e5]
+      simp only [attsCb, attsEnd, List.append_assoc]
 
 /-- the first attempt of a run (no `WebSocket` object yet, `reconnecting=False`) when it does not end the run -/
 theorem first_attempt (c : Cfg) (hq : Quiet c) (hT : 0 < selectTimeout c) (hiv : c.iv = 0) (hr : c.reconnect ≠ 0)
@@ -390,15 +469,20 @@ theorem first_attempt (c : Cfg) (hq : Quiet c) (hT : 0 < selectTimeout c) (hiv :
     (hfuel : a.fuel (selectTimeout c) ≤ c.fuel) (hz : attEnd s0.now a ≤ c.horizon) :
     ∃ s', setSock c (prologue s0) false = (s', .ok ()) ∧ Waiting s' ∧ s'.dials = ds ∧ s'.nextIdx = s0.nextIdx + 1 ∧
       s'.now = attEnd s0.now a ∧ openIdx s' = attOpen s0.nextIdx a ∧
-      netOnly s'.trace = netOnly s0.trace ++ [(s0.now, .dial s0.nextIdx)] ++ attClose s0.now s0.nextIdx a := by
+      netOnly s'.trace = netOnly s0.trace ++ [(s0.now, .dial s0.nextIdx)] ++ attClose s0.now s0.nextIdx a ∧
+      cbOnly s'.trace = cbOnly s0.trace ++ (attCb c false s0.calls s0.now a).1 ∧
+      s'.calls = (attCb c false s0.calls s0.now a).2 := by
   cases a with
   | fail d =>
     refine ⟨_, first_fail c hq hr (prologue s0) d ds (by simpa [prologue] using hs0) (by simpa [prologue] using hp0)
       (by simpa [prologue, Att.toDial] using hd) ha (by simp [prologue]),
-      ⟨rfl, by simpa [firstFail, prologue] using hp0, rfl, rfl, rfl, ⟨_, rfl⟩⟩, rfl, rfl, rfl, ?_, ?_⟩
+      ⟨rfl, by simpa [firstFail, prologue] using hp0, rfl, rfl, rfl, ⟨_, rfl⟩⟩, rfl, rfl, rfl, ?_, ?_, ?_, ?_⟩
     · simp [openIdx, attOpen, firstFail]
     · simp only [firstFail, prologue, netOnly_append, netOnly_cbTrace, attClose, List.append_nil]
       simp [netOnly]
+    · simp only [firstFail, prologue, attCb, cbOnly_append, cbOnly_cbTrace, Bool.false_eq_true, ↓reduceIte]
+      simp [cbOnly]
+    · simp [firstFail, prologue, attCb]
   | lost legal te =>
     obtain ⟨hleg, hl⟩ := ha
     have kr : (prologue s0).keepRunning = true := rfl
@@ -406,9 +490,11 @@ theorem first_attempt (c : Cfg) (hq : Quiet c) (hT : 0 < selectTimeout c) (hiv :
     have lp : (prologue s0).lastPing = 0 := by simpa [prologue] using hl0
     have hu3 : Up (enterR c (prologue s0) false (legal ++ [te]) ds) := ⟨kr, ⟨_, rfl, rfl, rfl, rfl⟩, pg, lp⟩
     have hu2 := runLegal_up c legal _ hu3
+    obtain ⟨cb1, cb2⟩ := lostState_cb c (prologue s0) false legal te ds (prologue s0).nextIdx hleg
     refine ⟨_, attempt_lost c hq hT hiv hr (prologue s0) false legal te ds (by simpa [prologue, Att.toDial] using hd)
       (Or.inl (by simpa [prologue] using hs0)) kr pg lp hleg hl hfuel (by simpa [prologue, attEnd] using hz),
-      ⟨by simpa [lostState] using hu2.kr, by simpa [lostState] using hu2.pg, ?_, rfl, rfl, ⟨_, rfl⟩⟩, ?_, ?_, rfl, ?_, ?_⟩
+      ⟨by simpa [lostState] using hu2.kr, by simpa [lostState] using hu2.pg, ?_, rfl, rfl, ⟨_, rfl⟩⟩, ?_, ?_, rfl, ?_, ?_,
+      by simpa [prologue] using cb1, by simpa [prologue] using cb2⟩
     · simp only [lostState]; rw [runLegal_hdt]; rfl
     · simp only [lostState]; rw [runLegal_dials]; rfl
     · simp only [lostState]; rw [runLegal_nextIdx]; rfl
@@ -419,5 +505,41 @@ theorem first_attempt (c : Cfg) (hq : Quiet c) (hT : 0 < selectTimeout c) (hiv :
       by_cases hk : te.ev = .eof
       · simp [hk, netOnly, prologue]
       · simp [hk, netOnly, prologue]
+
+/-! ### the closed form as one executable function (driver op `s-c15-resumes`: applied to the REAL runs) -/
+
+/-- a dial outcome read as an attempt that does not end the run, if it is one: a failure, or a connection whose events are
+    legal traffic followed by one loss -/
+def attOf : Dial → Option Att
+  | .refused => some (.fail .refused)
+  | .rejected st => some (.fail (.rejected st))
+  | .established evs =>
+    match evs.getLast? with
+    | some te => if isLoss te.ev && evs.dropLast.all (fun e => isLegal e.ev) then some (.lost evs.dropLast te) else none
+    | none => none
+
+/-- the network skeleton `C15_resumes` states, for a world `a :: as` then `established final` starting at tick 0 on a fresh
+    object (socket indices from 0); `sockDropped` left out (the real run observes it through garbage collection only) -/
+def resumesSkeleton (r : Nat) (a : Att) (as : List Att) (final : List TEv) : Trace :=
+  let t1 := attEnd 0 a
+  let o1 := attOpen 0 a
+  let tK := attsEnd r t1 as
+  let iK := 1 + as.length
+  [(0, .dial 0)] ++ attClose 0 0 a ++ attsTrace r t1 1 o1 as ++
+    [(tK, .sleep r)] ++ relTrace (tK + r) (attsOpen 1 o1 as) ++
+    [(tK + r, .dial iK), (endTime (tK + r) final, .returned true)]
+
+/-- a whole world in the shape of `C15_resumes` (at least one non-final attempt; the last connection carries legal traffic
+    and is closed by the server): its skeleton; `none` when the world has another shape -/
+def resumesOfWorld (r : Nat) (w : List Dial) : Option Trace :=
+  match w.getLast?, w.dropLast.mapM attOf with
+  | some (.established final), some (a :: as) =>
+    match final.getLast? with
+    | some te =>
+      (match te.ev with
+       | .close _ => if final.dropLast.all (fun e => isLegal e.ev) then some (resumesSkeleton r a as final) else none
+       | _ => none)
+    | none => none
+  | _, _ => none
 
 end WS.Lemmas.App
